@@ -1,4 +1,4 @@
-CONSTANTS Clients = {1, 2} MaxOps = 2
+CONSTANTS Clients = {1, 2} MaxOps = 2 Pool <- PoolSmall
 SPECIFICATION Spec
 INVARIANT NoDupSeq
 INVARIANT NoLostAdd
